@@ -266,11 +266,15 @@ def switch_harnesses(tier):
 
 
 def bounds(tier, h):
+    """(PB, TB).  Thorough: PB 2 for the harnesses whose sources issue <= 3 notifications in total (a PB-2 search of a longer one
+    is 10^4-10^5 executions at line granularity), PB 1 for the others."""
     if h.timed:
-        return (1, 0) if tier == "quick" else (2, 1)
-    if len(h.seqs) == 3:
+        # (a clock-tick deviation on top of PB 1 multiplies the schedules by the ~10^3 points of a window harness: the thorough
+        # tier did not complete with it)
         return (1, 0)
-    return (1, 0) if tier == "quick" else (2, 0)
+    if tier == "quick" or len(h.seqs) == 3:
+        return (1, 0)
+    return (2, 0) if sum(len(q) for q in h.seqs) <= 3 else (1, 0)
 
 
 def shard(part, shard_i, nshards, tier, seed, deadline):
@@ -283,7 +287,7 @@ def shard(part, shard_i, nshards, tier, seed, deadline):
 
 
 def run(ctx):
-    ctx.bounds = {"quick": "PB 1 (windows: PB 1, TB 1)", "thorough": "PB 2 (3 threads PB 1; windows PB 2, TB 1)"}[ctx.tier]
+    ctx.bounds = {"quick": "PB 1 (windows: PB 1, TB 1)", "thorough": "PB 2 for harnesses with <= 3 source notifications, PB 1 otherwise (windows PB 1 over more sequences)"}[ctx.tier]
     ctx.assumptions = ["each source emits serially from its own thread", "preemption at sync operations and line boundaries of the operator's files and internal/concurrency.py"]
     ctx.sharded(shard, nshards=len(harnesses(ctx.tier)))
     ilvrun.finish_cov(ctx, ctx.total)
